@@ -44,7 +44,7 @@ Proof.
   destruct (rt s) as [|w|w dr d]; simpl.
   - intros _. destruct (kis (tk t) KReturn && _); simpl; auto.
     destruct (return_statement_parenthesis c) eqn:E; simpl; auto. destruct (negb (fn s)); auto.
-  - intros H. destruct (kis (tk t) KSemi); simpl; auto; try (destruct w; auto).
+  - intros H. destruct (terminator (tk t)); simpl; auto; try (destruct w; auto).
   - intros H. destruct (terminator (tk t)); simpl; auto.
     destruct (kis (tk t) KLParen); simpl; [try (destruct w; auto); auto|].
     destruct (kis (tk t) KRParen); simpl; auto; try (destruct w; auto).
